@@ -384,7 +384,10 @@ fn gen_call(r: &mut Rng, sc: &SlotCtx, faults: &Faults, mode: Mode) -> Call {
         k @ (3 | 4) => {
             let ty = [QTy::Q0, QTy::Q1, QTy::Q2, QTy::Q3, QTy::QDyn][r.weighted(&[1, 5, 2, 1, 3])];
             let max_elems = if mode == Mode::C17Miri { 6 } else { 12 };
-            let shape = gen_qshape(r, ty, max_elems);
+            // rarely a long rank-1 batch: counters and thresholds inside the crate need volume
+            let big = mode == Mode::C17 && r.chance(1, 40);
+            let ty = if big { *r.pick(&[QTy::Q1, QTy::Q1, QTy::QDyn]) } else { ty };
+            let shape = if big { vec![r.range(40, 400)] } else { gen_qshape(r, ty, max_elems) };
             let n: usize = shape.iter().product();
             let (xs, ys): (Vec<Fb>, Vec<Fb>) = if mode == Mode::C18 {
                 // pairwise distinct query elements: every written value is attributable
@@ -403,7 +406,11 @@ fn gen_call(r: &mut Rng, sc: &SlotCtx, faults: &Faults, mode: Mode) -> Call {
                 }
                 (xs.into_iter().map(Fb).collect(), if sc.two { ys.into_iter().map(Fb).collect() } else { vec![] })
             } else {
-                ((0..n).map(|_| kx(r)).collect(), if sc.two { (0..n).map(|_| ky(r)).collect() } else { vec![] })
+                let inr = |r: &mut Rng, lh: (f64, f64)| Fb(lh.0 + (lh.1 - lh.0) * r.unit());
+                (
+                    (0..n).map(|_| if big && r.chance(1, 2) { inr(r, sc.lo_hi_x) } else { kx(r) }).collect(),
+                    if sc.two { (0..n).map(|_| if big && r.chance(1, 2) { inr(r, sc.lo_hi_y) } else { ky(r) }).collect() } else { vec![] },
+                )
             };
             // xs and ys get independent memory layouts (same layout in half of the cases)
             let lay = gen_lay(r);
@@ -599,7 +606,7 @@ fn gen_hammer(r: &mut Rng, want: Option<Kind>) -> Generated {
     let threads = (0..n_threads)
         .map(|_| ThreadSpec { ops: (0..r.range(10, 18)).map(|_| pool[r.below(pool.len())].clone()).collect(), crash_on_fault: false })
         .collect();
-    Generated { spec: RunSpec { build_on_thread: vec![], slots: vec![cfg], threads, sched: Sched::RoundRobin { quantum: 1 }, stall: None }, faults }
+    Generated { spec: RunSpec { build_on_thread: vec![], slots: vec![cfg], threads, sched: Sched::RoundRobin { quantum: 1 }, stall: None, ballast: 0 }, faults }
 }
 
 /// one complete run specification from one seed
@@ -701,5 +708,6 @@ fn gen_run_inner(seed: u64, mode: Mode) -> Generated {
     };
     let _ = ctxs.iter().map(|c| c.f32ok).count();
     let build_on_thread = (0..n_slots).map(|_| mode != Mode::C17Miri && r.chance(1, 2)).collect();
-    Generated { spec: RunSpec { build_on_thread, slots, threads, sched, stall }, faults }
+    let ballast = if mode == Mode::C17 && r.chance(1, 16) { r.range(8, 40) } else { 0 };
+    Generated { spec: RunSpec { build_on_thread, slots, threads, sched, stall, ballast }, faults }
 }
